@@ -245,7 +245,14 @@ class Ops:
                 g[key] = fresh_int("vlid")
                 self.st.ghost.setdefault("val_back", {})[str(g[key])] = v
                 if rec.kind == "conc":
+                    from .values import vlist_get
+
                     self.st.assume(vlist_len(g[key]) == len(rec.items))
+                    for i, it in enumerate(rec.items):
+                        try:
+                            self.st.assume(vlist_get(g[key], z3.IntVal(i)) == self.to_val(it))
+                        except Unsupported:
+                            pass
             return VAL.VList(g[key])
         if isinstance(v, SDict):
             key = ("vdict", v.did)
@@ -253,6 +260,16 @@ class Ops:
             if key not in g:
                 g[key] = fresh_int("vdid")
                 self.st.ghost.setdefault("val_back", {})[str(g[key])] = v
+                drec = self.st.dicts[v.did]
+                if drec.kind == "conc":
+                    from .values import vdict_get, vdict_has
+
+                    for kk, vv in drec.items:
+                        if isinstance(kk, SStr):
+                            try:
+                                self.st.assume(z3.And(vdict_has(g[key], kk.t), vdict_get(g[key], kk.t) == self.to_val(vv)))
+                            except Unsupported:
+                                pass
             return VAL.VDict(g[key])
         if isinstance(v, SObj):
             return VAL.VOther(z3.IntVal(-v.oid))
